@@ -107,6 +107,9 @@ def cases(tier, seed):
             yield ('MF', fmod, (n,))
         for p in pairs:
             yield ('MF', fmod, tuple(p))
+    # analyse, edit the same model object in place, analyse again with the same FMMetrics object
+    for m in sp.structures_upto(3 if tier == 'quick' else 4):
+        yield ('ME', m)
     # histories on one object
     alpha = _history_alphabet()
     if tier == 'quick':
@@ -139,6 +142,8 @@ def plan(tier):
 def describe(case):
     if case[0] == 'MH':
         return 'MH:' + ' -> '.join(sh.model_str(m) for m in case[1])
+    if case[0] == 'ME':
+        return 'ME:' + sh.model_str(case[1])
     if case[0] == 'MF':
         return 'MF:%s | filter=%s' % (sh.model_str(case[1]), ','.join(case[2]))
     return cm.describe_model_case(case)
@@ -147,6 +152,9 @@ def describe(case):
 def reduce(case):
     if case[0] == 'M':
         yield from cm.reduce_model_case(case)
+    elif case[0] == 'ME':
+        for m in sh.reductions(case[1], sp.NAME_POOL):
+            yield ('ME', m)
     elif case[0] == 'MF':
         for i in range(len(case[2])):
             yield ('MF', case[1], case[2][:i] + case[2][i + 1:])
@@ -388,6 +396,29 @@ def check(case):
                 out.append(Fail('filter-changes-metric', r['name']))
         check_report(res, model, fm, out, want_names)
         return out
+    if kind == 'ME':
+        from .c03 import inplace_edits
+        model = case[1]
+        for (what, edit, em) in inplace_edits(model):
+            fm, fails = cm.built(model)
+            if fails:
+                return fails
+            op = FMMetrics()
+            try:
+                op.execute(fm)
+                edit(fm)
+                res = op.execute(fm).get_result()
+                engine.tick(2)
+            except Exception as exc:  # noqa: BLE001
+                return [Fail('after-inplace-edit:raises:%s' % type(exc).__name__, {'edit': what, 'msg': str(exc)[:200]})]
+            sub = []
+            check_report(res, em, fm, sub, list(METRICS.values()))
+            for f in sub:
+                f.clause = 'after-inplace-edit:' + f.clause
+                f.detail = {'edit': what, 'info': f.detail}
+            if sub:
+                return sub
+        return []
     if kind == 'MH':
         op = FMMetrics()
         for i, model in enumerate(case[1]):
